@@ -134,6 +134,7 @@ OptsPlain == {O(F, F, F, F, F, F, F, F)}
 TreeMetrics == <<MD(1, 1, 11, 0), MD(2, 1, 11, 0), MD(3, 1, 12, 0), MD(4, 2, 21, 0), MD(5, 2, 22, 0)>>
 TreeSlots == <<SD(1, <<>>), SD(1, <<>>), SD(2, <<>>), SD(3, <<>>), SD(4, <<>>), SD(4, <<>>), SD(5, <<>>)>>
 TreeSlots5 == <<SD(1, <<>>), SD(1, <<>>), SD(3, <<>>), SD(4, <<>>), SD(5, <<>>)>>
+TreeSlots4 == <<SD(1, <<>>), SD(1, <<>>), SD(3, <<>>), SD(4, <<>>)>>
 OptsTree == {O(F, F, F, F, T, T, F, F), O(F, F, F, F, T, F, F, F), O(F, F, F, F, F, T, F, F)}
 OptsTreeFull == {O(F, F, F, F, T, T, F, F)}
 
@@ -152,6 +153,7 @@ OptsBud == {O(F, F, F, T, F, F, F, F), O(F, F, F, T, T, F, F, F), O(F, F, F, F, 
 AgentMetrics == <<MD(1, 1, 0, 0), MD(2, 2, 0, 0)>>
 AgentSlots == <<SD(1, <<>>), SD(1, <<>>), SDn(2, <<>>), SD(2, <<>>)>>
 OptsBudOnly == {O(F, F, F, T, F, F, F, F)}
+OptsAgent3 == {O(T, F, F, T, F, F, F, F), O(T, T, F, F, F, F, F, F), O(T, F, T, F, T, F, F, F)}
 OptsAgent == {O(T, F, F, T, F, F, F, F), O(T, F, T, T, F, F, F, F), O(T, T, F, F, F, F, F, F), O(F, T, F, F, F, F, F, F),
               O(T, F, F, F, T, F, F, F)}
 
